@@ -383,6 +383,12 @@ pub fn run_c07(rep: &mut Report, thorough: bool) {
             &mut rep.sink,
         );
         rep.stage("segment-fields", "one accepted data segment x advertised window 0..399 and 5 larger x 5 urgent pointers x 6 extra flag sets (URG, ECE, CWR, NS) x reserved bits {0, 5}: judged by the reference connection model", total, t0);
+        // whatever ENVELOPE the accepted segment travels in (every single departure of one IP / TCP
+        // header field, IPv4 option areas): the reference decides which departures make the segment
+        // unacceptable; every other one is answered with exact arithmetic
+        if let Ok(env) = crate::props::apps::AppEnv::new(s.cfg.clone()) {
+            crate::props::apps::envelope_stage(rep, &env, "data-envelope", HTTP_REQ, true, false);
+        }
         // every flag word x payload x acknowledgement number, on a flow without state and on a
         // validated one: which segments are answered (and with what) is the reference's decision for
         // ALL 512 flag words - a bare or payload-carrying ACK, RST|ACK, URG|ACK without PSH never is
@@ -1140,6 +1146,64 @@ fn interleavings(s: &Setup, rep: &mut Report, thorough: bool) {
     rep.stage("interleavings", "all 20 interleavings of two 3-segment requests x noise kind x noise position (x optional second noise), no de-duplication, every frame judged by the per-flow reference model", total, t0);
 }
 
+/// Destinations that are NOT the responder's (address lists configured): a foreign unicast address,
+/// group / broadcast addresses outside the list, through every destination MAC the responder
+/// accepts.  [SYN, data acknowledging whatever the SYN-ACK - if any came - announced or the cookie of
+/// that 4-tuple, a second data segment]: no reply, no state.
+pub fn foreign_destinations(rep: &mut Report) {
+    let t0 = std::time::Instant::now();
+    let cfg = Cfg::base().with_self(&[srv4(), srv6()]).with_deny(&[deny4(), deny6()]);
+    let mut d = match crate::driver::Driver::spawn(&cfg) {
+        Ok(d) => d,
+        Err(e) => {
+            rep.sink.machinery_errors.push(e);
+            return;
+        }
+    };
+    let dsts: Vec<Ip> = vec![Ip::V4([10, 0, 0, 77]), Ip::V4([224, 0, 0, 1]), Ip::V4([224, 0, 0, 251]), Ip::V4([255, 255, 255, 255]), Ip::V4([10, 0, 0, 255]), Ip::V4([10, 0, 0, 0]), Ip::parse("2001:db8::77"), Ip::parse("ff02::1"), Ip::parse("ff02::fb"), Ip::parse("ff02::1:ff00:1"), Ip::parse("ff05::2"), Ip::parse("ff0e::1"), Ip::parse("::1")];
+    let mut n = 0u64;
+    for dst in &dsts {
+        let group_mac: Mac = match dst {
+            Ip::V4(b) => [0x01, 0x00, 0x5e, b[1] & 0x7f, b[2], b[3]],
+            Ip::V6(b) => [0x33, 0x33, b[12], b[13], b[14], b[15]],
+        };
+        for dmac in [MAC_SRV, [0xff; 6], group_mac, [0x33, 0x33, 0, 0, 0, 1]] {
+            for (cport, sport) in [(40000u16, 80u16), (40001, 3478)] {
+                let mut f = flow(!dst.is_v4(), cport, sport);
+                f.sip = *dst;
+                f.smac = dmac;
+                let syn = f.tcp(100, 0, F_SYN, b"");
+                let o1 = d.exec(&[Cmd::Reset, Cmd::Frame(syn.clone())]).unwrap_or_default();
+                let announced = o1.get(1).and_then(|o| o.reply.as_deref()).and_then(synack_seq);
+                let c = announced.unwrap_or_else(|| crate::sip::cookie_guess(cfg.key, &f.cip, &f.sip, f.cport, f.sport));
+                let cmds = vec![Cmd::Reset, Cmd::Frame(syn), Cmd::Frame(f.tcp(101, c.wrapping_add(1), F_PSH | F_ACK, HTTP_REQ)), Cmd::Frame(f.tcp(101 + HTTP_REQ.len() as u32, c.wrapping_add(1), F_PSH | F_ACK, b"Z"))];
+                let outs = d.exec(&cmds).unwrap_or_default();
+                n += 3;
+                let mut seen_answer = false;
+                for k in 1..outs.len() {
+                    if outs[k].n != 0 || (outs[k].reply.is_some() && !seen_answer) {
+                        seen_answer |= outs[k].reply.is_some();
+                        rep.sink.violation(Violation {
+                            prop: if outs[k].n != 0 { "C09".into() } else { "C02".into() },
+                            key: if outs[k].n != 0 { "state-for-foreign-destination".into() } else { "answered:foreign-destination".into() },
+                            what: format!("address lists configured, destination {} (not handled) via destination MAC {}: frame {} of [SYN, data acknowledging the announced / computed cookie, data] left {} connection-table entries{}", dst, mac_str(&dmac), k, outs[k].n, if outs[k].reply.is_some() { " and was answered" } else { "" }),
+                            cfg: cfg.clone(),
+                            cmds: cmds[..=k].to_vec(),
+                            idx: n,
+                            stage: "foreign-destinations".into(),
+                        });
+                        if outs[k].n != 0 {
+                            break;
+                        }
+                    }
+                }
+            }
+        }
+    }
+    rep.sink.count("frames", n);
+    rep.stage("foreign-destinations", "address lists configured: 13 destinations outside the lists (foreign unicast, IPv4 / IPv6 groups of every scope, broadcast, subnet broadcast / zero host, loopback) x 4 accepted destination MACs (own, broadcast, the group's, all-nodes) x 2 port pairs x [SYN, data acknowledging the announced or computed cookie, data]: no reply, no state", n, t0);
+}
+
 pub fn run_c09(rep: &mut Report, thorough: bool) {
     rep.rule = "the table-size oracle |real table| == |reference set of validated flows| on every transition of the connection BFS (alphabet of C07 on 2-3 flows + noise), plus volume sweeps: all 65536 source ports each sending SYN (several accepted flag sets), PSH|ACK with every wrong acknowledgement of the C07 alphabet, FIN|ACK, RST, bare ACK; all base UDP / ICMP / ARP frames repeated; repeated valid PSH|ACK on one flow (growth exactly once); ADDED LATER: 70000 distinct flows validated in one table (size == flows validated so far at every step, every flow still owns its partial request afterwards)".into();
     rep.assumptions = vec!["table size read through hook H2 after every frame".into()];
@@ -1172,6 +1236,7 @@ pub fn run_c09(rep: &mut Report, thorough: bool) {
         bfs::bfs(&tcfg, &events, &s.cookies, &o2, rep);
     }
     structured_pairs(&s.cfg, rep);
+    foreign_destinations(rep);
     {
         // the listed witness pair of D13 under the production key
         let a = flow4(59661, 80);
